@@ -4,6 +4,7 @@ from __future__ import annotations
 
 import json
 import os
+import zlib
 import tempfile
 from pathlib import Path
 
@@ -11,6 +12,7 @@ os.environ.setdefault("GOTRANX_VERIF", "1")
 
 from . import tlc, skeleton  # noqa: E402
 
+DELTAS = [1e-8, 0.001, 0.5]
 REPO = Path(os.environ.get("VERIF_REPO", "/repo"))
 
 
@@ -81,6 +83,7 @@ def emit_event_to_traces(ev, model_id, monitor_index=None, zero_slope=None, full
             "all_stiff": "generalized" in str(ev.get("scheme")),
             "stiff": list((ev.get("kwargs") or {}).get("stiff_states") or []),
             "zero_slope": sorted(zero_slope or []),
+            "delta": (repr(abs(float(ev["kwargs"]["delta"]))) if "delta" in (ev.get("kwargs") or {}) else ""),
             "lin": {f"d{s}_dt": f"d{s}_dt_linearized" for s in sidx},
             "full_order": list(full_order or []),
         })
@@ -176,7 +179,8 @@ def record_model(text: str, model_id: str, backends=("python", "jax", "c"), sche
                 for sc in schemes:
                     kw = {}
                     if "rush_larsen" in sc:
-                        kw["delta"] = 1e-8
+                        # the delta passed varies with model, scheme and option so that "honoured" is observable
+                        kw["delta"] = DELTAS[(zlib.crc32(model_id.encode()) + sc.startswith("hybrid") + bool(ru)) % len(DELTAS)]
                     if sc == "hybrid_rush_larsen":
                         kw["stiff_states"] = stiff if stiff is not None else [s.name for s in ode.states[::2]]
                     cg.scheme(get_scheme(sc), **kw)
